@@ -7,6 +7,8 @@ import (
 
 	"github.com/biogo/hts/bgzf"
 	"pgregory.net/rapid"
+
+	"verif/internal/h"
 )
 
 // WOp is one writer operation.
@@ -149,13 +151,11 @@ func (s Script) Run(callTimeout time.Duration) *Outcome {
 	call := func(what string, f func()) bool {
 		done := make(chan struct{})
 		go func() { defer close(done); f() }()
-		select {
-		case <-done:
+		if h.Await(done, callTimeout, "github.com/biogo/hts") {
 			return true
-		case <-time.After(callTimeout):
-			o.Hung = what
-			return false
 		}
+		o.Hung = what
+		return false
 	}
 	flushMark := -1
 	snap := func(i int, what string, must int) {
